@@ -92,7 +92,8 @@ class Stats:
             d = digest(case)
             if d not in self.nontrivial:
                 self.nontrivial.add(d)
-                if len(self.samples) < 3:
+                # samples from different stages of the search (the first generated cases are the simplest ones)
+                if len(self.nontrivial) in (2, 25, 120, 400):
                     self.samples.append(abbreviate(case))
 
     def export(self):
@@ -486,7 +487,7 @@ def main(argv=None):
         print(f"VIOLATION property={pid} replay={path}")
 
     wall_s = time.time() - t0
-    samples = agg.samples[:5]
+    samples = sorted(agg.samples, key=lambda c: -len(canon(c)))[:6]
     if not samples and corpus_replayed == 0:
         samples = []
     ev = {
